@@ -473,6 +473,21 @@ let run_txt kind t =
      | Some m -> "t." ^ enc (to_text m))
   | _ -> failwith "txt"
 
+(* ---------- engine: file save under an injected write failure (C10) ---------- *)
+let save_text_len (lines : char list list list) : int =
+  List.fold_left (fun acc l -> match l with
+      | pt :: r -> acc + List.length (render_line_file pt r) + 1
+      | [] -> acc) 0 lines
+let run_savecrash old_l new_l limit =
+  let nl = dec_rules new_l in
+  let ok = int_of_string limit >= save_text_len nl in
+  Printf.sprintf "res=%s file=%s tmp=0" (if ok then "ok" else "err") (if ok then enc_rules nl else enc_rules (dec_rules old_l))
+let pred_savecrash old_l new_l impl =
+  let m = kv impl in
+  match List.assoc_opt "file" m with
+  | Some f -> b01 (f = enc_rules (dec_rules old_l) || f = enc_rules (dec_rules new_l))
+  | None -> "0"
+
 (* ---------- property predicates on engine traces ---------- *)
 let cvprop = try Sys.getenv "CVPROP" with Not_found -> ""
 
@@ -534,8 +549,88 @@ let pred_c17 steps impl =
       go sts outs
   | None -> false
 
+(* ---- trace-level predicates that need no model: they compare the
+   implementation's own observations with each other ---- *)
+let steps_list steps = if steps = "-" then [] else String.split_on_char '|' steps
+let is_query st = String.length st > 0 && st.[0] = '?'
+let sub_list l i n = List.filteri (fun j _ -> j >= i && j < i + n) l
+
+(* length of the maximal run of query steps ending just before index i *)
+let block_before sts i =
+  let a = Array.of_list sts in
+  let n = ref 0 in
+  while i - 1 - !n >= 0 && is_query a.(i - 1 - !n) do incr n done; !n
+
+(* C05: the block of queries before an explicit build_role_links equals the block after it *)
+let pred_c05 steps impl =
+  match impl_results impl with
+  | Some outs ->
+    let sts = steps_list steps in
+    if List.length sts <> List.length outs then false else
+      let ok = ref true in
+      List.iteri (fun i st ->
+          if st = "BR" then begin
+            let n = block_before sts i in
+            if sub_list sts (i - n) n = sub_list sts (i + 1) n then
+              (if sub_list outs (i - n) n <> sub_list outs (i + 1) n then ok := false)
+          end) sts;
+      !ok
+  | None -> false
+
+let cat_dumps a b = match a, b with
+  | "-", x -> x | x, "-" -> x | x, y -> x ^ ";" ^ y
+
+(* C09: a reload of the adapter equals the stores dumped just before it; and
+   save_policy + load_policy leaves the 3 observations around it unchanged *)
+let pred_c09 steps impl =
+  match impl_results impl with
+  | Some outs ->
+    let sts = Array.of_list (steps_list steps) and os = Array.of_list outs in
+    if Array.length sts <> Array.length os then false else begin
+      let ok = ref true in
+      Array.iteri (fun i st ->
+          if st = "?rv" && i >= 2 && sts.(i - 2) = "?ga:p" && sts.(i - 1) = "?ga:g" then begin
+            (* only adapters that persist incremental changes are required to be in sync:
+               the generator uses this triple on Memory adapters and after save+load *)
+            if os.(i) <> cat_dumps os.(i - 2) os.(i - 1) && os.(i) <> "EA" then ok := false
+          end;
+          if st = "SV" && i + 4 < Array.length sts && sts.(i + 1) = "LD" && os.(i) = "1" && os.(i + 1) = "1" && i >= 3 then begin
+            if not (os.(i - 3) = os.(i + 2) && os.(i - 2) = os.(i + 3) && os.(i - 1) = os.(i + 4)) then ok := false
+          end) sts;
+      !ok end
+  | None -> false
+
+(* C10: a call that the adapter refused (Ok false) or failed (Err adapter)
+   leaves the whole observation block unchanged. Known finding: the two-call
+   helpers delete_user / delete_role apply their first removal before the second
+   adapter call fails. *)
+let pred_c10 steps impl =
+  match impl_results impl with
+  | Some outs ->
+    let sts = Array.of_list (steps_list steps) and os = Array.of_list outs in
+    if Array.length sts <> Array.length os then "0" else begin
+      let res = ref "1" in
+      let stl = Array.to_list sts in
+      Array.iteri (fun i st ->
+          if not (is_query st) && (os.(i) = "EA" || os.(i) = "0") then begin
+            let n = block_before stl i in
+            if n > 0 && i + n < Array.length sts && sub_list stl (i - n) n = sub_list stl (i + 1) n then
+              if sub_list outs (i - n) n <> sub_list outs (i + 1) n then begin
+                let two_call = String.length st > 3 && (String.sub st 0 3 = "du:" || String.sub st 0 4 = "dra:") in
+                if two_call && os.(i) = "EA" && !res = "1" then res := "K:two_call_helper_partial"
+                else if not (two_call && os.(i) = "EA") then res := "0"
+              end
+          end) sts;
+      !res end
+  | None -> "0"
+
 let pred_eng line spec ad flags steps impl =
+  (* a constructor that failed (e.g. a scripted adapter failing the initial load) leaves nothing to judge *)
+  if impl_results impl = None && String.length impl >= 5 && String.sub impl 0 5 = "new=E" then "-" else
   match cvprop with
+  | "C05" -> b01 (pred_c05 steps impl)
+  | "C09" -> b01 (pred_c09 steps impl)
+  | "C10" -> pred_c10 steps impl
   | "C01" -> b01 (pred_c01 line spec ad flags steps impl)
   | "C17" -> b01 (pred_c17 steps impl)
   | _ -> "-"
@@ -552,6 +647,7 @@ let run_case (line : string) (toks : string list) : string =
      | Some _ -> "ok" | None -> "PANIC")
   | ["rm"; maxd; ops; qs] -> run_rm maxd ops qs
   | "pm" :: fn :: k :: pat :: rest -> run_pm fn k pat rest
+  | ["savecrash"; o; n; k] -> run_savecrash o n k
   | [("csv" | "esc" | "rmc" | "csvf" | "ini" | "mdl" | "totext") as kind; t] -> run_txt kind t
   | _ -> "?unknown-case"
 
@@ -568,6 +664,12 @@ let pred_case (line : string) (toks : string list) (impl : string) : string =
       | Some _ -> "ok" | None -> "PANIC" in
     b01 (impl = exp)
   | ["rm"; maxd; ops; qs] -> (try b01 (pred_rm maxd ops qs impl) with _ -> "0")
+  | ["twin"; _; _; _; _] ->
+    (* C11: the cached enforcer's outputs equal the uncached twin's *)
+    (match Str.bounded_split (Str.regexp_string " ## ") impl 2 with
+     | [a; b] -> b01 (a = b)
+     | _ -> "0")
+  | ["savecrash"; o; n; _] -> pred_savecrash o n impl
   | "pm" :: fn :: k :: pat :: rest ->
     (* totality for every request-side key; documented meaning inside the grammar *)
     if impl = "PANIC" || impl = "HANG" || impl = "ABORT" then "0"
